@@ -25,6 +25,11 @@ pub struct Case {
     /// history: a second call on the same robot in the same execution with `from` and `to` swapped
     #[serde(default)]
     pub second_call: bool,
+    /// > 0: the call is made by that many jobs of a parallel iterator at once (the caller is a
+    /// pool worker, as in a search planner that expands several nodes in its own `par_iter`);
+    /// all jobs ask the same question, the first answer that differs from job 0's is the observed one
+    #[serde(default)]
+    pub via_pool: usize,
     /// history: afterwards the SAME robot object is re-arranged through its public fields (new
     /// safety table, first environment body moved; the number of bodies stays the same) and the
     /// same request is made again
@@ -51,7 +56,20 @@ fn execute(robot: &Arc<KinematicsWithShape>, case: &Case, cfg: &SimCfg) -> SimOu
     let robot = robot.clone();
     let (i, f, t) = (case.initial, case.from, case.to);
     let second = case.second_call;
+    let via_pool = case.via_pool;
     sim::simulate(cfg, move || {
+        if via_pool > 0 {
+            use sim_rayon::prelude::*;
+            let slots: std::sync::Mutex<Vec<Option<Vec<[f64; 6]>>>> = std::sync::Mutex::new(vec![None; via_pool]);
+            (0..via_pool).into_par_iter().for_each(|k| {
+                let v = robot.non_colliding_offsets(&i, &f, &t);
+                slots.lock().unwrap()[k] = Some(v);
+            });
+            let all: Vec<Vec<[f64; 6]>> = slots.into_inner().unwrap().into_iter().map(|o| o.expect("pool job did not deliver")).collect();
+            let v = all.iter().find(|v| **v != all[0]).unwrap_or(&all[0]).clone();
+            let reported = v.iter().map(|q| robot.collides(q)).collect();
+            return Offered { v, reported };
+        }
         if second {
             // the observed call is the SECOND one; the first (other argument order) only leaves
             // behind whatever state the implementation keeps
@@ -290,6 +308,11 @@ fn drop_env(case: &Case, k: usize) -> Case {
 
 fn simplifications(case: &Case) -> Vec<Case> {
     let mut out = Vec::new();
+    if case.via_pool > 0 {
+        let mut c = case.clone();
+        c.via_pool -= 1;
+        out.push(c);
+    }
     if case.second_call {
         let mut c = case.clone();
         c.second_call = false;
@@ -582,7 +605,12 @@ pub fn gen_case(seed: u64, shard: u64, run: u64, t: &Tier) -> Option<Case> {
     } else {
         None
     };
-    Some(Case { cell, initial, from, to, cfgs, second_call, reconfigure })
+    // calls made by pool workers (a fifth of the scenarios that observe the first call)
+    let via_pool = {
+        let mut v = Rng::derive(seed, shard, run, "c14.via-pool");
+        if !second_call && v.chance(0.2) { v.range_usize(1, 4) } else { 0 }
+    };
+    Some(Case { cell, initial, from, to, cfgs, second_call, via_pool, reconfigure })
 }
 
 pub fn run(tier_name: &str, seed: u64) -> i32 {
@@ -597,6 +625,9 @@ pub fn run(tier_name: &str, seed: u64) -> i32 {
                 continue;
             };
             let mut robot = Arc::new(case.cell.build_robot());
+            if case.via_pool > 0 {
+                tally.bump("scenarios_with_calls_made_by_pool_workers", 1);
+            }
             if case.second_call {
                 tally.bump("history_scenarios_observing_a_second_call", 1);
             }
